@@ -85,6 +85,75 @@ Proof.
         erewrite <- (get_congr K _ keq klt), Eg, ?lookup_empty; [reflexivity|exact keq_sym|exact keq_trans|exact Hu|exact E].
 Qed.
 
+(* ---- Copy: a well-formed trie whose lookups are those of the original ---- *)
+Lemma trie_ind' (P : trie -> Prop) :
+  (forall v ch, (forall k c, In (k, c) ch -> P c) -> P (Node v ch)) -> forall t, P t.
+Proof.
+  intros H. fix IH 1. intros [v ch]. apply H.
+  revert ch. fix IHl 1. intros [|[k0 c0] r] k c Hin.
+  - destruct Hin.
+  - destruct Hin as [E|Hin].
+    + replace c with c0 by congruence. apply IH.
+    + eapply IHl. exact Hin.
+Qed.
+
+(* the loop of copyNode: Set every (key, copy of child) into the new map, in iteration order *)
+Fixpoint copy_children (l acc : list (K * trie)) : list (K * trie) :=
+  match l with
+  | [] => acc
+  | (k, c) :: r => copy_children r (set keq klt acc k (copy keq klt c))
+  end.
+
+Lemma copy_node v ch : copy keq klt (Node v ch) = Node v (copy_children ch []).
+Proof.
+reflexivity. Qed.
+
+Lemma uniq_copy_children l acc : uniq acc -> uniq (copy_children l acc).
+Proof.
+  revert acc. induction l as [|[k c] r IH]; intros acc Hu; cbn [copy_children]; [exact Hu|].
+  apply IH. eapply uniq_set; eauto.
+Qed.
+
+Lemma in_copy_children l acc k0 c0 :
+  In (k0, c0) (copy_children l acc) -> In (k0, c0) acc \/ exists k c, In (k, c) l /\ c0 = copy keq klt c.
+Proof.
+  revert acc. induction l as [|[k c] r IH]; intros acc Hin; cbn [copy_children] in Hin; [left; exact Hin|].
+  apply IH in Hin. destruct Hin as [Hin|(k1 & c1 & Hin & ->)].
+  - apply in_set in Hin. destruct Hin as [->|Hin]; [right; exists k, c; split; [left; reflexivity|reflexivity]|left; exact Hin].
+  - right. exists k1, c1. split; [right; exact Hin|reflexivity].
+Qed.
+
+Lemma get_copy_children l acc key :
+  uniq l -> uniq acc ->
+  get keq klt (copy_children l acc) key =
+  match sget keq l key with Some c => Some (copy keq klt c) | None => get keq klt acc key end.
+Proof.
+  revert acc. induction l as [|[k c] r IH]; intros acc Hl Hu; cbn [copy_children sget]; [reflexivity|].
+  destruct Hl as [Hh Hr]. rewrite IH; [|exact Hr|eapply uniq_set; eauto].
+  erewrite get_set; [|exact keq_sym|exact keq_trans|exact Hu].
+  destruct (keq k key) eqn:E; [|reflexivity].
+  rewrite (sget_none K _ keq r key); [reflexivity|].
+  intros k' Hk. specialize (Hh k' Hk).
+  rewrite keq_sym. eapply (keq_false_trans K keq keq_trans); [exact E|exact Hh].
+Qed.
+
+Lemma get_nil (key : K) : get keq klt (@nil (K * trie)) key = None.
+Proof. reflexivity. Qed.
+
+Lemma copy_correct t : wf t -> wf (copy keq klt t) /\ forall ks, lookup keq klt (copy keq klt t) ks = lookup keq klt t ks.
+Proof.
+  induction t as [v ch IH] using trie_ind'. intros Hw.
+  inversion Hw as [v0 ch0 Hu Hc]; subst. rewrite copy_node. split.
+  - constructor; [apply uniq_copy_children; exact I|].
+    intros k0 c0 Hin. apply in_copy_children in Hin. destruct Hin as [[]|(k & c & Hin & ->)].
+    apply (IH k c Hin). eauto.
+  - intros [|k ks]; [rewrite !lookup_nil; reflexivity|].
+    rewrite !lookup_cons. rewrite get_copy_children by (exact Hu || exact I).
+    rewrite get_nil. rewrite (get_is_sget K _ keq klt keq_sym keq_trans ch k Hu).
+    destruct (sget keq ch k) as [c|] eqn:Es; [|reflexivity].
+    apply sget_in in Es. destruct Es as [k0 Hin]. apply (IH k0 c Hin). eauto.
+Qed.
+
 (* ---- specification and refinement over histories ---- *)
 Fixpoint slookup (l : list (list K * V)) (ks : list K) : option V :=
   match l with
@@ -92,46 +161,153 @@ Fixpoint slookup (l : list (list K * V)) (ks : list K) : option V :=
   | (ks0, v) :: r => if eql keq ks0 ks then Some v else slookup r ks
   end.
 
-Definition sstep (l : list (list K * V)) (o : top K V) : list (list K * V) * option (tout V) :=
+(* Put on the association list: replace the value of the entry with an equal key, else add *)
+Fixpoint sput (l : list (list K * V)) (ks : list K) (v : V) : list (list K * V) :=
+  match l with
+  | [] => [(ks, v)]
+  | (ks0, w) :: r => if eql keq ks0 ks then (ks0, v) :: r else (ks0, w) :: sput r ks v
+  end.
+
+(* the specification of a fork: its inner history runs on the SAME association list (Copy is the
+   identity on what a trie represents) and leaves no trace *)
+Fixpoint sstep_rec (o : top K V) (l : list (list K * V)) {struct o} : list (list K * V) * list (option (tout V)) :=
   match o with
   | Declare ks v => match slookup l ks with
-                    | Some w => (l, Some (Rejected w))
-                    | None => ((ks, v) :: l, Some Declared)
+                    | Some w => (l, [Some (Rejected w)])
+                    | None => ((ks, v) :: l, [Some Declared])
                     end
-  | Lookup ks => (l, Some (Found (slookup l ks)))
-  | Search _ => (l, None)
+  | Lookup ks => (l, [Some (Found (slookup l ks))])
+  | Search _ => (l, [None])
+  | Put ks v => (sput l ks v, [Some PutDone])
+  | Fork inner =>
+    (l, Some ForkBegin ::
+        (fix go (ops : list (top K V)) (c : list (list K * V)) : list (option (tout V)) :=
+           match ops with
+           | [] => []
+           | o' :: r => let '(c', out) := sstep_rec o' c in out ++ go r c'
+           end) inner l ++ [Some ForkEnd])
   end.
+
+Definition sstep (l : list (list K * V)) (o : top K V) := sstep_rec o l.
 
 Fixpoint srun (l : list (list K * V)) (ops : list (top K V)) : list (option (tout V)) :=
   match ops with
   | [] => []
-  | o :: r => let '(l', out) := sstep l o in out :: srun l' r
+  | o :: r => let '(l', out) := sstep l o in out ++ srun l' r
   end.
+
+Lemma tstep_fork t inner :
+  tstep keq klt t (Fork inner) = (t, ForkBegin :: trun keq klt (copy keq klt t) inner ++ [ForkEnd]).
+Proof.
+  unfold tstep; cbn [tstep_rec]. do 3 f_equal. generalize (copy keq klt t).
+  induction inner as [|o r IH]; intros c; cbn [trun]; [reflexivity|].
+  unfold tstep at 1. destruct (tstep_rec keq klt o c) as [c' out]. rewrite IH. reflexivity.
+Qed.
+
+Lemma sstep_fork l inner :
+  sstep l (Fork inner) = (l, Some ForkBegin :: srun l inner ++ [Some ForkEnd]).
+Proof.
+  unfold sstep; cbn [sstep_rec]. do 3 f_equal. generalize l at 2 4.
+  induction inner as [|o r IH]; intros c; cbn [srun]; [reflexivity|].
+  unfold sstep at 1. destruct (sstep_rec o c) as [c' out]. rewrite IH. reflexivity.
+Qed.
+
+Lemma top_ind' (P : top K V -> Prop) :
+  (forall ks v, P (Declare ks v)) -> (forall ks, P (Lookup ks)) -> (forall q, P (Search q)) ->
+  (forall ks v, P (Put ks v)) -> (forall inner, Forall P inner -> P (Fork inner)) -> forall o, P o.
+Proof.
+  intros HD HL HS HP HF. fix IH 1. intros [ks v|ks|q|ks v|inner]; [apply HD|apply HL|apply HS|apply HP|].
+  apply HF. revert inner. fix IHl 1. intros [|o r]; constructor; [apply IH|apply IHl].
+Qed.
 
 Definition obs (o : tout V) : option (tout V) := match o with Matches _ => None | x => Some x end.
 
 Definition TR (t : trie) (l : list (list K * V)) : Prop :=
   wf t /\ forall ks, lookup keq klt t ks = slookup l ks.
 
-Lemma tstep_refines t l o :
-  TR t l -> obs (snd (tstep keq klt t o)) = snd (sstep l o) /\ TR (fst (tstep keq klt t o)) (fst (sstep l o)).
+Lemma TR_copy t l : TR t l -> TR (copy keq klt t) l.
 Proof.
-  intros [Hw Ho]. destruct o as [ks v|ks|q]; cbn [tstep sstep].
-  - rewrite Ho. destruct (slookup l ks) as [w|] eqn:E; cbn; [split; [reflexivity|split; assumption]|].
-    split; [reflexivity|]. split; [apply wf_insert; assumption|].
-    intros ks'. rewrite lookup_insert by assumption. cbn. rewrite Ho. reflexivity.
-  - cbn. rewrite Ho. split; [reflexivity|split; assumption].
-  - cbn. split; [reflexivity|split; assumption].
+  intros [Hw Ho]. destruct (copy_correct t Hw) as [Hw' Ho']. split; [exact Hw'|].
+  intros ks. rewrite Ho'. apply Ho.
 Qed.
 
+Lemma eql_refl a : eql keq a a = true.
+Proof. induction a; cbn; [reflexivity|]. rewrite keq_refl; assumption. Qed.
+Lemma eql_sym a b : eql keq a b = eql keq b a.
+Proof. revert b; induction a as [|x a IH]; intros [|y b]; cbn; try reflexivity. rewrite keq_sym, IH; reflexivity. Qed.
+Lemma eql_trans a b c : eql keq a b = true -> eql keq b c = true -> eql keq a c = true.
+Proof.
+  revert b c; induction a as [|x a IH]; intros [|y b] [|z c]; cbn; try congruence.
+  intros H1 H2. apply andb_true_iff in H1. apply andb_true_iff in H2. destruct H1, H2.
+  apply andb_true_iff; split; [eapply keq_trans; eauto|eapply IH; eauto].
+Qed.
+Lemma eql_false_trans a b c : eql keq a b = true -> eql keq a c = false -> eql keq b c = false.
+Proof.
+  intros H1 H2. destruct (eql keq b c) eqn:E; [|reflexivity].
+  rewrite (eql_trans a b c H1 E) in H2. congruence.
+Qed.
+
+Lemma slookup_congr l a b : eql keq a b = true -> slookup l a = slookup l b.
+Proof.
+  intros E. induction l as [|[k0 v0] r IH]; cbn; [reflexivity|].
+  destruct (eql keq k0 a) eqn:E0.
+  - rewrite (eql_trans _ _ _ E0 E). reflexivity.
+  - assert (eql keq k0 b = false) as ->; [|exact IH].
+    destruct (eql keq k0 b) eqn:E1; [|reflexivity].
+    assert (eql keq k0 a = true) by (eapply eql_trans; [exact E1|rewrite eql_sym; exact E]). congruence.
+Qed.
+
+(* the law of Put on the specification side *)
+Lemma slookup_sput l ks v ks' :
+  slookup (sput l ks v) ks' = if eql keq ks ks' then Some v else slookup l ks'.
+Proof.
+  induction l as [|[k0 w] r IH]; cbn [sput slookup]; [destruct (eql keq ks ks'); reflexivity|].
+  destruct (eql keq k0 ks) eqn:E0; cbn [slookup].
+  - destruct (eql keq ks ks') eqn:E1.
+    + rewrite (eql_trans _ _ _ E0 E1). reflexivity.
+    + assert (eql keq k0 ks' = false) as ->; [|reflexivity].
+      destruct (eql keq k0 ks') eqn:E2; [|reflexivity].
+      rewrite eql_sym in E0. rewrite (eql_trans _ _ _ E0 E2) in E1. congruence.
+  - destruct (eql keq k0 ks') eqn:E2; [|exact IH].
+    assert (eql keq ks ks' = false) as ->; [|reflexivity].
+    destruct (eql keq ks ks') eqn:E1; [|reflexivity].
+    rewrite eql_sym in E1. rewrite (eql_trans _ _ _ E2 E1) in E0. congruence.
+Qed.
+
+Definition step_refines_at (o : top K V) : Prop :=
+  forall t l, TR t l ->
+    map obs (snd (tstep keq klt t o)) = snd (sstep l o) /\ TR (fst (tstep keq klt t o)) (fst (sstep l o)).
+
+Lemma run_refines_of ops :
+  Forall step_refines_at ops -> forall t l, TR t l -> map obs (trun keq klt t ops) = srun l ops.
+Proof.
+  induction 1 as [|o r Ho Hr IH]; intros t l HR; cbn [trun srun]; [reflexivity|].
+  destruct (Ho t l HR) as [Hout HR'].
+  destruct (tstep keq klt t o) as [t' out]; destruct (sstep l o) as [l' out']; cbn [fst snd] in *.
+  rewrite map_app, Hout. f_equal. apply IH. exact HR'.
+Qed.
+
+Lemma tstep_refines o : step_refines_at o.
+Proof.
+  induction o as [ks v|ks|q|ks v|inner IHi] using top_ind'; intros t l HR.
+  - destruct HR as [Hw Ho]. unfold tstep, sstep; cbn [tstep_rec sstep_rec]. rewrite Ho.
+    destruct (slookup l ks) as [w|] eqn:E; cbn; [split; [reflexivity|split; assumption]|].
+    split; [reflexivity|]. split; [apply wf_insert; assumption|].
+    intros ks'. rewrite lookup_insert by assumption. rewrite Ho. reflexivity.
+  - destruct HR as [Hw Ho]. unfold tstep, sstep; cbn. rewrite Ho. split; [reflexivity|split; assumption].
+  - unfold tstep, sstep; cbn. split; [reflexivity|exact HR].
+  - destruct HR as [Hw Ho]. unfold tstep, sstep; cbn [tstep_rec sstep_rec fst snd map obs].
+    split; [reflexivity|]. split; [apply wf_insert; assumption|].
+    intros ks'. rewrite lookup_insert by assumption. rewrite slookup_sput, Ho. reflexivity.
+  - rewrite tstep_fork, sstep_fork. cbn [fst snd]. split; [|exact HR].
+    cbn [map obs]. rewrite map_app. cbn [map obs]. do 2 f_equal.
+    apply run_refines_of; [exact IHi|apply TR_copy; exact HR].
+Qed.
+
+(* every history - with Puts and nested forks - answers as the association list *)
 Theorem trie_refines_assoc_list : forall ops t l,
   TR t l -> map obs (trun keq klt t ops) = srun l ops.
-Proof.
-  induction ops as [|o ops IH]; intros t l HR; cbn; [reflexivity|].
-  pose proof (tstep_refines t l o HR) as [Hout HR'].
-  destruct (tstep keq klt t o) as [t' out]; destruct (sstep l o) as [l' out']; cbn in *.
-  rewrite Hout. f_equal. apply IH. exact HR'.
-Qed.
+Proof. intros ops. apply run_refines_of. apply Forall_forall. intros o _. apply tstep_refines. Qed.
 
 Lemma TR_init : TR empty [].
 Proof. split; [apply wf_empty|intros ks; apply lookup_empty]. Qed.
@@ -145,71 +321,142 @@ Lemma TR_reachable ops t l : TR t l ->
   TR (fold_left (fun t o => fst (tstep keq klt t o)) ops t) (fold_left (fun l o => fst (sstep l o)) ops l).
 Proof. revert t l; induction ops as [|o ops IH]; intros t l H; cbn; [exact H|]. apply IH. apply tstep_refines; exact H. Qed.
 
-Lemma eql_refl a : eql keq a a = true.
-Proof. induction a; cbn; [reflexivity|]. rewrite keq_refl; assumption. Qed.
-Lemma eql_sym a b : eql keq a b = eql keq b a.
-Proof. revert b; induction a as [|x a IH]; intros [|y b]; cbn; try reflexivity. rewrite keq_sym, IH; reflexivity. Qed.
-Lemma eql_trans a b c : eql keq a b = true -> eql keq b c = true -> eql keq a c = true.
+(* ---- forks are isolated ---- *)
+Lemma trun_app t ops1 ops2 :
+  trun keq klt t (ops1 ++ ops2) =
+  trun keq klt t ops1 ++ trun keq klt (fold_left (fun t o => fst (tstep keq klt t o)) ops1 t) ops2.
 Proof.
-  revert b c; induction a as [|x a IH]; intros [|y b] [|z c]; cbn; try congruence.
-  intros H1 H2. apply andb_true_iff in H1. apply andb_true_iff in H2. destruct H1, H2.
-  apply andb_true_iff; split; [eapply keq_trans; eauto|eapply IH; eauto].
+  revert t. induction ops1 as [|o r IH]; intros t; cbn [app trun fold_left]; [reflexivity|].
+  destruct (tstep keq klt t o) as [t' out]; cbn [fst]. rewrite IH, app_assoc. reflexivity.
 Qed.
 
-Lemma slookup_congr l a b : eql keq a b = true -> slookup l a = slookup l b.
+Lemma fork_keeps_state t inner : fst (tstep keq klt t (Fork inner)) = t.
+Proof. rewrite tstep_fork. reflexivity. Qed.
+
+(* one fork: whatever the inner history does to the copy (Puts over keys of the original, new
+   declarations, further forks), the continuation answers exactly as if the fork had not happened;
+   the fork itself answers as the association list of the original at that moment *)
+Theorem fork_isolation : forall h inner cont,
+  trun keq klt empty (h ++ Fork inner :: cont) =
+    trun keq klt empty h ++ (ForkBegin :: trun keq klt (copy keq klt (state_after h)) inner ++ [ForkEnd])
+    ++ trun keq klt (state_after h) cont
+  /\ trun keq klt empty (h ++ cont) = trun keq klt empty h ++ trun keq klt (state_after h) cont
+  /\ map obs (trun keq klt (copy keq klt (state_after h)) inner) = srun (spec_after h) inner.
 Proof.
-  intros E. induction l as [|[k0 v0] r IH]; cbn; [reflexivity|].
-  destruct (eql keq k0 a) eqn:E0.
-  - rewrite (eql_trans _ _ _ E0 E). reflexivity.
-  - assert (eql keq k0 b = false) as ->; [|exact IH].
-    destruct (eql keq k0 b) eqn:E1; [|reflexivity].
-    assert (eql keq k0 a = true) by (eapply eql_trans; [exact E1|rewrite eql_sym; exact E]). congruence.
+  intros h inner cont. rewrite !trun_app. fold (state_after h). split; [|split; [reflexivity|]].
+  - cbn [trun]. rewrite tstep_fork. reflexivity.
+  - apply trie_refines_assoc_list. apply TR_copy. apply TR_reachable, TR_init.
 Qed.
 
-(* once a sequence is bound in the specification it stays bound to the same value *)
+Lemma state_erase_forks ops t :
+  fold_left (fun t o => fst (tstep keq klt t o)) (erase_forks ops) t = fold_left (fun t o => fst (tstep keq klt t o)) ops t.
+Proof.
+  revert t. induction ops as [|o r IH]; intros t; [reflexivity|].
+  unfold erase_forks in *. cbn [filter fold_left].
+  destruct o as [ks v|ks|q|ks v|inner]; cbn [is_fork negb fold_left]; try apply IH.
+  rewrite fork_keeps_state. apply IH.
+Qed.
+
+Definition balanced_at (o : top K V) : Prop :=
+  forall t d rest, strip_forks (S d) (snd (tstep keq klt t o) ++ rest) = strip_forks (S d) rest.
+
+Lemma balanced_run ops : Forall balanced_at ops ->
+  forall t d rest, strip_forks (S d) (trun keq klt t ops ++ rest) = strip_forks (S d) rest.
+Proof.
+  induction 1 as [|o r Ho Hr IH]; intros t d rest; cbn [trun app]; [reflexivity|].
+  specialize (Ho t d). destruct (tstep keq klt t o) as [t' out]; cbn [snd] in Ho.
+  rewrite <- app_assoc, Ho. apply IH.
+Qed.
+
+Lemma balanced_all o : balanced_at o.
+Proof.
+  induction o as [ks v|ks|q|ks v|inner IHi] using top_ind'; intros t d rest.
+  - unfold tstep; cbn [tstep_rec]. destruct (lookup keq klt t ks); reflexivity.
+  - reflexivity.
+  - reflexivity.
+  - reflexivity.
+  - rewrite tstep_fork. cbn [snd app strip_forks]. rewrite <- app_assoc.
+    rewrite (balanced_run inner IHi). reflexivity.
+Qed.
+
+(* any number of forks, nested to any depth, anywhere in the history: the outputs outside the forks
+   are exactly the outputs of the history with the forks erased *)
+Theorem forks_invisible : forall ops t,
+  strip_forks 0 (trun keq klt t ops) = trun keq klt t (erase_forks ops).
+Proof.
+  induction ops as [|o r IH]; intros t; [reflexivity|].
+  unfold erase_forks in *. cbn [trun filter].
+  destruct o as [ks v|ks|q|ks v|inner]; cbn [is_fork negb trun].
+  - unfold tstep; cbn [tstep_rec]. destruct (lookup keq klt t ks); cbn [app strip_forks]; rewrite IH; reflexivity.
+  - unfold tstep; cbn [tstep_rec app strip_forks]. rewrite IH. reflexivity.
+  - unfold tstep; cbn [tstep_rec app strip_forks]. rewrite IH. reflexivity.
+  - unfold tstep; cbn [tstep_rec app strip_forks]. rewrite IH. reflexivity.
+  - rewrite tstep_fork. cbn [app strip_forks]. rewrite <- app_assoc.
+    rewrite (balanced_run inner); [|apply Forall_forall; intros o _; apply balanced_all].
+    cbn [app strip_forks pred]. apply IH.
+Qed.
+
+(* once a sequence is bound in the specification it stays bound to the same value, as long as no
+   Put is issued on the trie itself (Puts inside forks do not count: they hit the copy) *)
 Lemma slookup_stable ops l ks v :
+  forallb (fun o => negb (is_put o)) ops = true ->
   slookup l ks = Some v -> slookup (fold_left (fun l o => fst (sstep l o)) ops l) ks = Some v.
 Proof.
-  revert l. induction ops as [|o ops IH]; intros l H; cbn; [exact H|]. apply IH.
-  destruct o as [ks2 v2|ks2|q]; cbn; try exact H.
-  destruct (slookup l ks2) as [w|] eqn:E; cbn; [exact H|].
-  destruct (eql keq ks2 ks) eqn:E2; [|exact H].
-  rewrite (slookup_congr l ks2 ks E2) in E. congruence.
+  revert l. induction ops as [|o ops IH]; intros l Hnp H; cbn [fold_left]; [exact H|].
+  cbn [forallb] in Hnp. apply andb_true_iff in Hnp. destruct Hnp as [Ho Hnp]. apply IH; [exact Hnp|].
+  destruct o as [ks2 v2|ks2|q|ks2 v2|inner]; try exact H.
+  - unfold sstep; cbn [sstep_rec]. destruct (slookup l ks2) as [w|] eqn:E; cbn [fst slookup]; [exact H|].
+    destruct (eql keq ks2 ks) eqn:E2; [|exact H].
+    rewrite (slookup_congr l ks2 ks E2) in E. congruence.
+  - discriminate Ho.
+  - rewrite sstep_fork. exact H.
 Qed.
 
 (* C20, first half: a declaration whose pattern coincides (token-wise, by keq) with one that was
-   successfully declared earlier is rejected, whatever happened in between. *)
+   successfully declared earlier is rejected, whatever happened in between - including any number
+   of forks whose inner histories Put the same key. *)
 Theorem dup_rejected : forall ops1 ks v ops2 ks' v',
+  forallb (fun o => negb (is_put o)) ops2 = true ->
   lookup keq klt (state_after ops1) ks = None ->
   eql keq ks ks' = true ->
-  exists w, snd (tstep keq klt (state_after (ops1 ++ Declare ks v :: ops2)) (Declare ks' v')) = Rejected w.
+  snd (tstep keq klt (state_after (ops1 ++ Declare ks v :: ops2)) (Declare ks' v')) = [Rejected v].
 Proof.
-  intros ops1 ks v ops2 ks' v' Hnone E.
+  intros ops1 ks v ops2 ks' v' Hnp Hnone E.
   pose proof (TR_reachable (ops1 ++ Declare ks v :: ops2) empty [] TR_init) as [Hw Ho].
-  unfold state_after. cbn [tstep]. rewrite Ho.
+  unfold state_after. unfold tstep at 1; cbn [tstep_rec]. rewrite Ho.
   rewrite fold_left_app. cbn [fold_left].
   pose proof (TR_reachable ops1 empty [] TR_init) as [Hw1 Ho1].
   fold (state_after ops1) in Ho1. fold (spec_after ops1).
   assert (Hs : slookup (spec_after ops1) ks = None) by (rewrite <- Ho1; exact Hnone).
   assert (H1 : slookup (fst (sstep (spec_after ops1) (Declare ks v))) ks' = Some v).
-  { cbn. rewrite Hs. cbn. rewrite E. reflexivity. }
-  rewrite (slookup_stable ops2 _ ks' v H1). eexists; reflexivity.
+  { unfold sstep; cbn [sstep_rec]. rewrite Hs. cbn. rewrite E. reflexivity. }
+  rewrite (slookup_stable ops2 _ ks' v Hnp H1). reflexivity.
 Qed.
 
 (* C20, second half: a successfully declared alias is found, with its own value, after any
-   further declarations and lookups. *)
+   further declarations, lookups and forks (whose inner histories may Put the same key). *)
 Theorem stays_callable : forall ops1 ks v ops2 ks',
+  forallb (fun o => negb (is_put o)) ops2 = true ->
   lookup keq klt (state_after ops1) ks = None ->
   eql keq ks ks' = true ->
   lookup keq klt (state_after (ops1 ++ Declare ks v :: ops2)) ks' = Some v.
 Proof.
-  intros ops1 ks v ops2 ks' Hnone E.
+  intros ops1 ks v ops2 ks' Hnp Hnone E.
   pose proof (TR_reachable (ops1 ++ Declare ks v :: ops2) empty [] TR_init) as [Hw Ho].
   unfold state_after. rewrite Ho. rewrite fold_left_app. cbn [fold_left].
   pose proof (TR_reachable ops1 empty [] TR_init) as [Hw1 Ho1].
   fold (state_after ops1) in Ho1. fold (spec_after ops1).
   assert (Hs : slookup (spec_after ops1) ks = None) by (rewrite <- Ho1; exact Hnone).
-  apply slookup_stable. cbn. rewrite Hs. cbn. rewrite E. reflexivity.
+  apply slookup_stable; [exact Hnp|]. unfold sstep; cbn [sstep_rec]. rewrite Hs. cbn. rewrite E. reflexivity.
+Qed.
+
+(* the reason a top-level Put is excluded above: it is the one operation that rebinds a key *)
+Theorem put_overwrites : forall ops ks v ks',
+  eql keq ks ks' = true -> lookup keq klt (state_after (ops ++ [Put ks v])) ks' = Some v.
+Proof.
+  intros ops ks v ks' E. unfold state_after. rewrite fold_left_app. cbn [fold_left].
+  pose proof (TR_reachable ops empty [] TR_init) as [Hw Ho].
+  unfold tstep; cbn [tstep_rec fst]. rewrite lookup_insert by exact Hw. rewrite E. reflexivity.
 Qed.
 
 End Proofs.
